@@ -8,6 +8,14 @@ import re
 
 RULES = [
     dict(
+        id="KF-C17-def-class-nesting-depth",
+        property="C17",
+        desc="def statements nested 50 deep (chain_call + ast.unparse) / 98 deep, class statements nested 98 deep: every level of the source becomes several "
+        "levels of parentheses in the output, and CPython's parser refuses more than 200 nested parentheses / overflows its stack, while it accepts 99 "
+        "indentation levels in the source (PendingFunctionDef/PendingClassDef.get_result: lambda + list display + subscript per level)",
+        match=lambda key, cfg, host, klass, detail: bool(re.match(r"c17:nested-(def|class):(50|90|98)$", key)) and klass == "malformed",
+    ),
+    dict(
         id="KF-C09-user-identifier-dunder-class",
         property="C09",
         desc="a user identifier spelled __class__ (variable, parameter, function/class/method name, alias): the lowering binds the real name __class__ in "
